@@ -159,6 +159,21 @@ def oracle(ctx, name, crit, Ad, Md, b, x0, tol, maxiter, x, st, res, cbs, case, 
             ctx.fail(sig + 'last-history-entry', 'residuals[-1]=%.6g but recomputed %.6g' % (res[-1], nz), case)
     if st > 0 and st != len(cbs):
         ctx.fail(sig + 'status-not-iteration-count', 'status %r but %d iterations' % (st, len(cbs)), case)
+    # every history entry belongs to the iterate handed to the callback at that step (well-conditioned systems: the recurrence /
+    # Givens estimates agree with the recomputed norms to many digits)
+    if len(res) == len(cbs) + 1 and cbs:
+        for k_, xk_ in enumerate(cbs):
+            if not np.all(np.isfinite(xk_)):
+                break
+            if name in SIMPLE:
+                hk_ = crit_values(name, crit, Ad, Md, b, np.ravel(xk_))[0]
+            else:
+                rk_ = b - Ad @ np.ravel(xk_)
+                hk_ = np.linalg.norm(Md @ rk_ if (Md is not None and hist_is_Mr) else rk_)
+            if abs(res[k_ + 1] - hk_) > 1e-5 * max(hk_, abs(res[0]), 1e-300) + 1e-11:
+                ctx.fail(sig + 'history-entry-not-of-callback-iterate', 'residuals[%d] = %.6g but the iterate passed to the callback at that step has %.6g'
+                         % (k_ + 1, res[k_ + 1], hk_), case)
+                break
 
 
 def run(ctx):
@@ -238,6 +253,31 @@ def run(ctx):
                         if cv0 > thr0 * (1 + 1e-3) and len(cbs0) == 0 and st0 >= 0:
                             ctx.fail(name + '/unconverged-guess-accepted', 'criterion %s: guess misses it (%.3g >= %.3g) but no iteration was run (status %r)'
                                      % (crit_, cv0, thr0, st0), cs0)
+                    # the same question in other units (right-hand side and guess scaled by 2^-60 / 2^55): the criteria are relative
+                    # (except 'rMr', which is documented as the absolute test sqrt(r^H M r) < tol)
+                    for unit in ((2.0 ** -60, 2.0 ** 55) if crit_ != 'rMr' else ()):
+                        bu = (b * unit).astype(b.dtype)
+                        for dist in (0.0, 1e-2):
+                            xgu = ((xsol + dist * np.array([rng.uniform(-1, 1) for _ in range(n)])) * unit).astype(b.dtype)
+                            for guess in ((xgu, 'given'),) + (((None, 'omitted'),) if dist > 0 else ()):
+                                xg_ = guess[0]
+                                xeff = np.zeros_like(bu) if xg_ is None else xg_
+                                tol0 = 1e-6
+                                try:
+                                    _, cvu = crit_values(name, crit_, Ad, Mg, bu, xeff)
+                                    thru = threshold(name, crit_, Ad, Mg, bu, xeff, tol0)
+                                    xr, stu, resu, cbsu = call(fn, Aarg, bu, None if xg_ is None else xg_.copy(), tol0, 3, crit_, Mg)
+                                except Exception as e:   # noqa
+                                    ctx.fail(name + '/raises', repr(e), dict(base, variant='other-units', criteria=crit_))
+                                    continue
+                                csu = dict(base, variant='other-units', criteria=crit_, unit=unit, distance=dist, guess=guess[1], tol=tol0)
+                                ctx.count('other-units:' + str(crit_))
+                                if cvu > thru * (1 + 1e-3) and len(cbsu) == 0 and stu >= 0:
+                                    ctx.fail(name + '/unconverged-guess-accepted/other-units', 'b of size %.1e, criterion %s: the start misses it (%.3g >= %.3g) but no iteration was run (status %r)'
+                                             % (np.linalg.norm(bu), crit_, cvu, thru, stu), csu)
+                                if cvu < thru * (1 - 1e-3) and (stu != 0 or len(cbsu) != 0):
+                                    ctx.fail(name + '/converged-guess/other-units', 'b of size %.1e, criterion %s: the guess meets it but status=%r after %d iterations'
+                                             % (np.linalg.norm(bu), crit_, stu, len(cbsu)), csu)
             its = [np.zeros_like(b) if x0 is None else x0] + xs
             if len(full) != len(its) or not all(np.all(np.isfinite(v)) for v in its):
                 oracle(ctx, name, crit, Ad, Md, b, x0, 1e-300, K, x, st, full, xs, dict(base, tol=1e-300, maxiter=K))
